@@ -53,9 +53,16 @@ def read_pair(base):
 
 
 def pub_octets(pem):
-    body = b"".join(l for l in pem.replace(b"\r", b"").split(b"\n") if l and not l.startswith(b"-----"))
-    der = base64.b64decode(body)
-    assert der[:12] == PUB_PREFIX and len(der) == 44, der.hex()
+    # total: a file that is not exactly one PEM public key gives a marker that matches nothing
+    try:
+        lines = [l for l in pem.replace(b"\r", b"").split(b"\n") if l]
+        if len(lines) < 3 or lines[0] != b"-----BEGIN PUBLIC KEY-----" or lines[-1] != b"-----END PUBLIC KEY-----":
+            return b"not-a-single-pem-public-key:" + pem[:40]
+        der = base64.b64decode(b"".join(lines[1:-1]), validate=True)
+    except Exception:  # noqa: BLE001
+        return b"not-a-single-pem-public-key:" + pem[:40]
+    if der[:12] != PUB_PREFIX or len(der) != 44:
+        return b"not-a-single-pem-public-key:" + pem[:40]
     return der[12:]
 
 
@@ -212,12 +219,12 @@ def main():
                 parents.append(("sample:" + name, f.read()))
     for s in ["", "root", "clé"]:
         r = R.keygen(s)
-        assert r.startswith("ok:"), r
-        parents.append(("mlar-keygen-seeded", bytes.fromhex(r.split(":")[1])))
+        if r.startswith("ok:") and len(bytes.fromhex(r.split(":")[1])) == 48:
+            parents.append(("mlar-keygen-seeded", bytes.fromhex(r.split(":")[1])))
     for _ in range(4 if thorough else 2):
         r = R.keygen(None)
-        assert r.startswith("ok:"), r
-        parents.append(("mlar-keygen-unseeded", bytes.fromhex(r.split(":")[1])))
+        if r.startswith("ok:") and len(bytes.fromhex(r.split(":")[1])) == 48:
+            parents.append(("mlar-keygen-unseeded", bytes.fromhex(r.split(":")[1])))
     for i in range(8 if thorough else 3):
         k = clamp(bytes(rnd.randrange(256) for _ in range(32)))
         der = PRIV_PREFIX + k
@@ -278,8 +285,8 @@ def main():
         if r1.startswith("ok:"):
             priv, pub = (bytes.fromhex(x) for x in r1.split(":")[1:])
             if priv[:16] != PRIV_PREFIX or len(priv) != 48:
-                c["msgs"].append("the private file is not the fixed-prefix DER")
-            raw = priv[16:]
+                c["msgs"].append("the private file is not the fixed-prefix DER (%d bytes; a key file is 48 bytes, whatever was at that path before)" % len(priv))
+            raw = priv[16:48].ljust(32, b"\0")
             o_doc, o_pub = ask(["keygen " + hx(sb), "pub " + raw.hex()])
             if pub_octets(pub).hex() != o_pub[1]:
                 c["msgs"].append("(iii) the public file does not match the private file")
@@ -307,7 +314,9 @@ def main():
             c["msgs"].append("(i) the same parent and paths gave two different key files")
         if r1.startswith("ok:"):
             priv, pub = (bytes.fromhex(x) for x in r1.split(":")[1:])
-            raw = priv[16:]
+            if priv[:16] != PRIV_PREFIX or len(priv) != 48:
+                c["msgs"].append("the private file is not the fixed-prefix DER (%d bytes; a key file is 48 bytes, whatever was at that path before)" % len(priv))
+            raw = priv[16:48].ljust(32, b"\0")
             # (ii) path by path through the files; remembers which parents were stored clamped
             cur, unclamped_parent = data, stored != clamp(stored)
             step_res = None
